@@ -740,15 +740,50 @@ def mutate_after(rng, tree, path, pformat):
     return t
 
 
+def _dict_paths(c, prefix, acc):
+    if isinstance(c, dict):
+        acc.add(prefix)
+        for k, v in c.items():
+            _dict_paths(v, (prefix + "." + k) if prefix else k, acc)
+
+
 def _renders_dict(tree, flow=None):
-    """True if the reference would have to render a dictionary into a string, statically or when `flow` is
-    run (outside the generated domain: the model does not describe `str(dict)`)"""
-    try:
-        ref = Ref(tree)
-        if flow is not None and ref.top[0] == "ok":
-            ref_run(tree, ref.exp, 0, [(i, copy.deepcopy(c)) for i, c in enumerate(flow)])
-    except (DictRendered, Unmodelled):
+    """True if some formatting field of the tree could resolve to a dictionary in some pass of the real
+    protocol, or when `flow` is run (outside the generated domain: the model does not describe `str(dict)`).
+    Conservative and syntactic: a field that is a proper prefix of a SetContext key, or (for MakeFilename, which
+    also formats from the run-time context) a dictionary-valued path of a flow context."""
+    dicts, fields, mkf_fields = set(), set(), set()
+    for nd in preorder(tree):
+        if nd["k"] == "set":
+            parts = nd["key"].split(".")
+            for i in range(1, len(parts)):
+                dicts.add(".".join(parts[:i]))
+            tpl = parse_template(nd["val"]) if isinstance(nd["val"], str) else None
+        elif nd["k"] in ("mkf", "write", "cache"):
+            tpl = parse_template(nd["fmt"])
+        else:
+            tpl = None
+        for f in (tpl or [])[1::2]:
+            f = ".".join(p for p in f.split(".") if p)
+            fields.add(f)
+            if nd["k"] == "mkf":
+                mkf_fields.add(f)
+    if "" in fields or fields & dicts:
         return True
+    if flow is not None:
+        rt = set()
+        for c in list(flow) + SRC_FLOW:
+            _dict_paths(c, "", rt)
+        rt.discard("")
+        rt.add("output")
+        if mkf_fields & rt:
+            return True
+        try:
+            ref = Ref(tree)
+            if ref.top[0] == "ok":
+                ref_run(tree, ref.exp, 0, [(i, copy.deepcopy(c)) for i, c in enumerate(flow)])
+        except (DictRendered, Unmodelled):
+            return True
     return False
 
 
